@@ -127,7 +127,7 @@ func plainBaseline(env *hx.Env, files hx.Files, input string) (string, bool, *cl
 func TestC18(t *testing.T) {
 	env, rec := start(t, "C18", "exploration",
 		"for each accepted input (rapid-generated Engine P programs, also under a differently named setup file and a directory with dots): complete enumeration of the 2^4 flag sets {-out,-dry,-print,-log} x 7 input spellings "+
-			"{relative from module root, absolute, ./relative, bare name from the package directory, GOFILE only (both cwds), GOFILE set to a bogus value plus argument}, plus -out variants (absolute, nested existing directory, relative to another working directory, a name ending in .log) and output paths that already hold something (other content, identical content, broken Go, a longer earlier result), and the no-input case. "+
+			"{relative from module root, absolute, ./relative, bare name from the package directory, GOFILE only (both cwds), GOFILE set to a bogus value plus argument}, plus -out variants (absolute, nested existing directory, relative to another working directory, a name ending in .log, names whose stem ends in g / o / ., without extension, with a four-letter extension) and output paths that already hold something (other content, identical content, broken Go, a longer earlier result), and the no-input case. "+
 			"Oracle: expected paths computed from the documented rule; bytes of a plain run are the reference; stdout equals the code (optionally one extra newline) with -print and is empty without. "+
 			"Non-trivial: any flag set other than the empty one or any spelling other than relative-from-root; combinations are distinct by construction per input.")
 	defer rec.Done()
@@ -230,7 +230,7 @@ func TestC18(t *testing.T) {
 		}
 		// further -out targets, and outputs that replace something: whatever the path held before, the file holds exactly
 		// the code afterwards (and stdout the same code with -print)
-		for _, ok := range []string{"abs", "nested-dir", "cwd", "cwd", "log-ext", "log-ext", "", "same-dir"} {
+		for _, ok := range []string{"abs", "nested-dir", "cwd", "cwd", "log-ext", "log-ext", "", "same-dir", "odd-stem-g", "odd-stem-o", "odd-stem-dot", "no-ext", "long-ext"} {
 			for _, dry := range []bool{false, true} {
 				sc := cliScenario{Input: input, Spelling: rapid.SampledFrom(c18Spellings).Draw(rt, "sp"), OutKind: ok, Dry: dry, Print: rapid.Bool().Draw(rt, "print"), Log: rapid.Bool().Draw(rt, "log"), Pre: "absent"}
 				if !dry && (ok == "" || ok == "same-dir" || ok == "abs") {
